@@ -5,6 +5,7 @@ import ast
 
 from sa.analyses.base import RuleAnalysis
 from sa.analyses.escape import DESER, DGRAMPARSE, EscapeSummaries
+from sa.analyses.buffers import through_local
 from sa.db import AnalysisError, ClassInfo, FunctionInfo, dotted, mangle, norm_stmt, own_nodes
 from sa.exc import CANCELLED
 from sa.flow import FnExit, Interp, call_of
@@ -301,6 +302,17 @@ def check_err(eng, run):
         if not wrap:
             run.finding("C05.err", fn, fn.node, "an exception other than DatagramProtocolParseError raised while building the packet is no longer wrapped: it leaves the receive with an arbitrary type")
         run.ob("C05.err", modname.split(".")[-3] + "." + fn.short, not bad and wrap, escaping=sorted(toks), crash_wrap=wrap)
+    # a malformed datagram is *one parse error*: no input-dependent exception but DeserializeError leaves any serializer's one-shot deserialize
+    # (anything else is turned into the RuntimeError('... crashed') above, which is not a parse error)
+    from rules.c06 import ENTRY_POINTS, _stmt_on_path, entry_escapes
+    n = 0
+    for ci, mname, label, sfn, stoks, sbad in entry_escapes(eng, summ, ENTRY_POINTS[:1]):
+        n += 1
+        for t in sbad:
+            tr = summ.witness.get((sfn.qualname, ci.qualname), {}).get(t, ())
+            run.finding("C05.err", sfn, _stmt_on_path(sfn, tr), f"`{t}` (input-dependent) can escape {ci.name}.deserialize: the datagram receive reports RuntimeError('... crashed') instead of exactly one parse error", tr)
+        run.ob("C05.err", f"{ci.name}.deserialize:only-DeserializeError", not sbad, escaping=sorted(stoks))
+    run.floor("C05.err one-shot deserializers", n, 15)
     fn = db.cls("lowlevel.api_async.servers.datagram.AsyncDatagramServer").methods.get("__parse_datagram")
     if fn is None:
         raise AnalysisError("anchor vanished: AsyncDatagramServer.__parse_datagram")
@@ -318,15 +330,20 @@ def check_drop(eng, run):
 
     n = 0
     mods = ("easynetwork.lowlevel.api_async.backend._asyncio.datagram", "easynetwork.lowlevel.api_async.backend._trio.datagram", "easynetwork.lowlevel.api_sync.endpoints.datagram",
-            "easynetwork.lowlevel.api_async.endpoints.datagram", "easynetwork.lowlevel.api_async.servers.datagram")
+            "easynetwork.lowlevel.api_async.endpoints.datagram", "easynetwork.lowlevel.api_async.servers.datagram",
+            "easynetwork.lowlevel.api_sync.transports")
     for fn in eng.db.all_functions():
         if isinstance(fn.node, ast.Lambda) or not fn.module.name.startswith(mods):
             continue
+        if fn.module.name.startswith("easynetwork.lowlevel.api_sync.transports") and not (
+                fn.cls is not None and any("Datagram" in c.name for c in fn.cls.mro())):
+            continue  # stream transports: an empty read is EOF, not a datagram
         probe = HoldAnalysis(eng)
         probe.fn = fn
         if not any(isinstance(x, ast.Call) and probe.is_source_call(x) for x in own_nodes(fn.node)):
             continue
         an = HoldAnalysis(eng)
+        an.empty_is_data = True
         out = Interp(an, fn).run()
         if not an.sources:
             continue
@@ -376,6 +393,69 @@ def check_sep(eng, run):
     run.floor("C05.sep separator suffix operations", uses, 3)
 
 
+UDP_MAX_PAYLOAD = 65535 - 8  # largest payload a UDP datagram can carry (IPv6, no jumbogram); IPv4 allows 65507
+
+
+def _const_int(e):
+    """value of a constant integer expression (literals, + - * // << **), else None"""
+    if isinstance(e, ast.Constant) and isinstance(e.value, int) and not isinstance(e.value, bool):
+        return e.value
+    if isinstance(e, ast.BinOp):
+        a, b = _const_int(e.left), _const_int(e.right)
+        if a is None or b is None:
+            return None
+        try:
+            return {ast.Add: a.__add__, ast.Sub: a.__sub__, ast.Mult: a.__mul__, ast.FloorDiv: a.__floordiv__, ast.LShift: a.__lshift__, ast.Pow: a.__pow__}[type(e.op)](b)
+        except (KeyError, ZeroDivisionError, ValueError):
+            return None
+    return None
+
+
+def check_bufsize(eng, run):
+    """never split: the receive buffer handed to recv(2)/recvfrom(2) on a datagram socket holds the largest UDP datagram;
+    a shorter buffer makes the kernel truncate the datagram silently (the rest is discarded)"""
+    const = eng.db.module("lowlevel.constants")
+    val = node = None
+    for st in const.tree.body:
+        tgt = st.target if isinstance(st, ast.AnnAssign) else (st.targets[0] if isinstance(st, ast.Assign) and len(st.targets) == 1 else None)
+        if isinstance(tgt, ast.Name) and tgt.id == "MAX_DATAGRAM_BUFSIZE" and st.value is not None:
+            val, node = _const_int(st.value), st
+    if node is None:
+        raise AnalysisError("anchor vanished: lowlevel.constants.MAX_DATAGRAM_BUFSIZE")
+    ok = val is not None and val >= UDP_MAX_PAYLOAD
+    if not ok:
+        from types import SimpleNamespace
+        run.finding("C05.bufsz", SimpleNamespace(qualname=const.name, file=const.relpath), node, f"MAX_DATAGRAM_BUFSIZE = {val if val is not None else ast.unparse(node.value)} is smaller than the largest UDP payload ({UDP_MAX_PAYLOAD}): "
+                    "a legal datagram longer than that is truncated by recv(2) and yields a wrong packet or a spurious parse error")
+    run.ob("C05.bufsz", "constants.MAX_DATAGRAM_BUFSIZE>=65527", ok, value=val)
+    # every datagram receive on a raw socket passes that constant (or the constructor-validated size defaulting to it), unmodified
+    n = 0
+    mods = ("easynetwork.lowlevel.api_sync.transports.socket", "easynetwork.lowlevel.api_async.backend._trio.datagram")
+    for fn in eng.db.all_functions():
+        if not fn.module.name.startswith(mods):
+            continue
+        if fn.module.name.endswith("transports.socket") and not (fn.cls is not None and any("Datagram" in c.name for c in fn.cls.mro())):
+            continue
+        for c in own_nodes(fn.node):
+            if isinstance(c, ast.Call) and isinstance(c.func, ast.Attribute) and c.func.attr in ("recv", "recvfrom") and len(c.args) >= 1 \
+                    and any(w in (dotted(c.func.value) or "").lower() for w in ("socket", "listener", "sock")):
+                n += 1
+                a = through_local(fn, c.args[0])
+                d = (dotted(a) or "").lower()
+                good = ("max_datagram" in d) and not isinstance(a, ast.BinOp)
+                if not good:
+                    run.finding("C05.bufsz", fn, c, f"datagram socket read with buffer size `{ast.unparse(c.args[0])}` instead of the maximum datagram size: longer datagrams are truncated")
+                run.ob("C05.bufsz", f"{fn.short}:{c.func.attr}({ast.unparse(c.args[0])})", good)
+    run.floor("C05.bufsz datagram socket reads", n, 3)
+    # the user-supplied override is validated (> 0) and defaults to the constant
+    init = eng.db.fn("lowlevel.api_sync.transports.socket:SocketDatagramTransport.__init__")
+    dflt = [ast.unparse(d) for d in list(init.node.args.defaults) + [d for d in init.node.args.kw_defaults if d is not None]]
+    ok = any(d.endswith("MAX_DATAGRAM_BUFSIZE") for d in dflt)
+    if not ok:
+        run.finding("C05.bufsz", init, init.node, "SocketDatagramTransport no longer defaults max_datagram_size to MAX_DATAGRAM_BUFSIZE")
+    run.ob("C05.bufsz", f"{init.short}:default-is-the-constant", ok)
+
+
 def run(eng, run):
     run.not_decided += NOT_DECIDED
     check_drop(eng, run)
@@ -384,6 +464,7 @@ def run(eng, run):
     check_card(eng, run)
     check_oneshot(eng, run)
     check_err(eng, run)
+    check_bufsize(eng, run)
 
 
 # ---------------------------------------------------------------------------------------------- self-test corpus
@@ -427,4 +508,23 @@ MUTANTS += [
     Variant("endpoint-error-check-after-dequeue", "lowlevel.api_async.backend._asyncio.datagram.endpoint:DatagramEndpoint.recvfrom",
             lambda fn: insert_after(fn, stmt_has("data_and_address = await self.__recv_queue.get()"), "self.__check_exceptions()"), "C05.drop",
             why="a pending socket error swallows the datagram that was just dequeued"),
+]
+
+_RNB = "lowlevel.api_sync.transports.socket:SocketDatagramTransport.recv_noblock"
+_TRS = "lowlevel.api_async.backend._trio.datagram.socket:TrioDatagramSocketAdapter.recv"
+MUTANTS += [
+    Variant("json-oneshot-recursion-unmapped", "serializers.json:JSONSerializer.deserialize",
+            lambda fn: [t.handlers.remove(h) for t in ast.walk(fn) if isinstance(t, ast.Try) for h in list(t.handlers) if "RecursionError" in ast.unparse(h.type)], "C05.err",
+            why="a deeply nested datagram yields RuntimeError('... crashed') instead of one parse error (seed C05-4)"),
+    Variant("empty-datagram-treated-as-spurious-wakeup", _RNB,
+            lambda fn: replace_stmt(fn, stmt_has("return self.__socket.recv(max_datagram_size)"),
+                                    "data = self.__socket.recv(max_datagram_size)\nif not data:\n    raise base_selector.WouldBlockOnRead(self.__socket.fileno())\nreturn data"),
+            "C05.drop", why="a zero-length datagram is consumed and dropped (seed C05-5)"),
+    Variant("trio-recv-small-buffer", _TRS, lambda fn: replace_expr(fn, "self.MAX_DATAGRAM_BUFSIZE", "8192"), "C05.bufsz", why="datagrams above 8 KiB truncated"),
+    Variant("sync-recv-half-buffer", _RNB, lambda fn: replace_expr(fn, "self.__socket.recv(max_datagram_size)", "self.__socket.recv(max_datagram_size // 2)"), "C05.bufsz"),
+]
+BENIGN += [
+    Variant("sync-recv-noblock-via-local", _RNB,
+            lambda fn: replace_stmt(fn, stmt_has("return self.__socket.recv(max_datagram_size)"), "data = self.__socket.recv(max_datagram_size)\nreturn data"),
+            why="result bound to a local first"),
 ]
